@@ -165,7 +165,14 @@ def build_driver(flavour, driver, extra_flags=(), extra_ld=(), jobs=16):
                     pass
         inc = ['-I' + os.path.join(repo(), 'include'), '-I' + os.path.join(HARNESS, 'common')]
         tmp = exe + '.tmp%d' % os.getpid()
-        _run([fl['cxx']] + COMMON + fl['flags'] + list(extra_flags) + inc + [src] + objs + ['-o', tmp] + fl['ld'] + list(extra_ld))
+        cmd = [fl['cxx']] + COMMON + fl['flags'] + list(extra_flags) + inc + [src] + objs + ['-o', tmp] + fl['ld'] + list(extra_ld)
+        try:
+            _run(cmd)
+        except Exception:
+            # the harness copies Decoder objects (they are copyable on the pinned tree); a tree on which they no longer are must not
+            # stop the checks from running: second attempt without the copy-based monitors
+            _run(cmd[:1] + ['-DVF_NO_DECODER_COPY'] + cmd[1:])
+            sys.stderr.write('note: %s/%s built with -DVF_NO_DECODER_COPY (Decoder is not copyable on this tree)\n' % (flavour, driver))
         os.replace(tmp, exe)
     return exe
 
